@@ -912,7 +912,11 @@ def _compile_module_file(template, text, filename, outputpath, module_writer):
         # avoiding synchronization issues.
         dest, name = tempfile.mkstemp(dir=os.path.dirname(outputpath))
 
-        os.write(dest, source)
+        # os.write may take less than it is given (a quota, a nearly full
+        # disk): a module cut short must never be moved into place
+        remaining = memoryview(source)
+        while remaining:
+            remaining = remaining[os.write(dest, remaining) :]
         os.close(dest)
         shutil.move(name, outputpath)
 
